@@ -12,21 +12,37 @@
 
 namespace {
 
-struct Cell { std::string key; std::string type; std::string sval; int32_t ival = 0; bool loaded = false; };
+struct Cell { std::string key; std::string type; std::string sval; };
+
+// observations of the load: one ["req", loaded, value] event per requested cell (the value is the prior one when not loaded)
+std::string& Events() { static std::string s; return s; }
 
 struct Row
 {
-	const std::vector<Cell>* script = nullptr;	// load: keys to request; save: this row's own cells
-	std::vector<Cell> cells;
+	std::vector<Cell> cells;		// save: this row's own cells (texts)
 
 	template <class TArchive>
 	void Serialize(TArchive& archive)
 	{
-		if constexpr (TArchive::IsLoading()) cells = *gLoadScript();
-		for (auto& c : cells)
+		if constexpr (TArchive::IsLoading())
 		{
-			if (c.type == "i") c.loaded = BitSerializer::Serialize(archive, c.key, c.ival);
-			else c.loaded = BitSerializer::Serialize(archive, c.key, c.sval);
+			for (const auto& c : *gLoadScript())
+			{
+				vh::WithType(c.type == "s" ? "str" : c.type == "i" ? "i32" : c.type, [&](auto* tag) {
+					using T = std::remove_pointer_t<decltype(tag)>;
+					if constexpr (std::is_arithmetic_v<T> || std::is_same_v<T, std::string>)
+					{
+						T target = vh::Prior<T>();
+						const bool loaded = BitSerializer::Serialize(archive, c.key, target);
+						if (Events().size() < (1u << 16)) Events() += std::string(Events().empty() ? "" : ",") + "[\"req\"," + (loaded ? "true" : "false") + "," + vh::Canon(target) + "]";
+					}
+					else { fprintf(stderr, "csv_fault: unsupported cell type\n"); exit(3); }
+				});
+			}
+		}
+		else
+		{
+			for (auto& c : cells) BitSerializer::Serialize(archive, c.key, c.sval);
 		}
 	}
 	static const std::vector<Cell>*& gLoadScript() { static const std::vector<Cell>* p = nullptr; return p; }
@@ -40,7 +56,7 @@ std::vector<Cell> CellsFrom(const vh::JVal& arr)
 		Cell cell;
 		cell.key = vh::BytesFromJson(c["k"]);
 		cell.type = c.HasMember("t") ? c["t"].GetString() : "s";
-		if (c.HasMember("v")) { cell.sval = vh::BytesFromJson(c["v"]); if (cell.type == "i") cell.ival = atoi(cell.sval.c_str()); }
+		if (c.HasMember("v")) cell.sval = vh::BytesFromJson(c["v"]);
 		out.push_back(std::move(cell));
 	}
 	return out;
@@ -52,6 +68,8 @@ std::string RunCsvFault(const vh::JVal& scn, const std::string& kind, long long 
 	std::string exc;
 	exc.reserve(1 << 12);
 	exc = "[\"none\"]";
+	Events().clear();
+	Events().reserve(1 << 16);
 	const auto options = OptionsFrom(scn);
 	const bool isSave = scn["save"].GetBool();
 	const bool wantStream = scn.HasMember("stream") && scn["stream"].GetBool();
@@ -97,7 +115,7 @@ std::string RunCsvFault(const vh::JVal& scn, const std::string& kind, long long 
 	}
 	return "{\"kind\":\"" + kind + "\",\"k\":" + std::to_string(k) + ",\"save\":" + (isSave ? "true" : "false") + ",\"exc\":" + exc +
 		",\"leak\":" + std::to_string(liveAfter - liveBefore) + ",\"allocs\":" + std::to_string(allocsInCall) + ",\"produced\":" + std::to_string(produced) +
-		",\"hits\":" + std::to_string(faultHits) + ",\"streambad\":" + (streamBad ? "true" : "false") + ",\"rows\":" + std::to_string(rowsLoaded) + "}";
+		",\"hits\":" + std::to_string(faultHits) + ",\"streambad\":" + (streamBad ? "true" : "false") + ",\"rows\":" + std::to_string(rowsLoaded) + ",\"ev\":[" + Events() + "]}";
 }
 
 }
